@@ -3256,6 +3256,15 @@ Qed.
 (* ------------------------------------------------------------------------------------------------ *)
 Definition reachable (R : repo) (s : state) : Prop := exists expl ops, s = run R (init expl) ops.
 
+(* the operations of a history that did not fail (RNoMod: lys_set_implemented of a module the context does not have is not a
+   failing call of the library, the script driver just has nothing to call) *)
+Fixpoint succ_ops (R : repo) (s : state) (ops : list op) : list op :=
+  match ops with
+  | [] => []
+  | o :: ops' => let '(s', r) := step R s o in
+                 match r with RErr => succ_ops R s' ops' | _ => o :: succ_ops R s' ops' end
+  end.
+
 (* what an operation does only depends on the C state (not on the event log of the previous operation) *)
 Lemma step_core R s1 s2 o : core s1 = core s2 -> step R s1 o = step R s2 o.
 Proof. intros H. unfold step. rewrite H. reflexivity. Qed.
@@ -3540,4 +3549,30 @@ Lemma set_options_or_first_refuted :
 Proof.
   intros H. destruct w8_facts as [_ [_ [A [B C]]]]. rewrite (H (core w8_s) w8_fl A) in C.
   change (xopts (core w8_s)) with (xopts w8_s) in C. rewrite B in C. discriminate C.
+Qed.
+
+(* the whole-history form of the property does not hold, not even without LY_CTX_EXPLICIT_COMPILE: the history of witness 5
+   (every state before a call is quiescent, the one failing call restores the observable) ends in another observable than
+   the history of its successful calls *)
+Definition w5_ops : list op := OpParse w5_d1 FNull :: w5_o :: w5_later.
+Lemma w5_history :
+  succ_ops w5_R (init false) w5_ops = OpParse w5_d1 FNull :: w5_later /\
+  forallb (fun n => quiescent (run w5_R (init false) (firstn n w5_ops))) (seq 0 5) = true /\
+  obs (run w5_R (init false) w5_ops) <> obs (run w5_R (init false) (succ_ops w5_R (init false) w5_ops)).
+Proof. vm_compute. split; [reflexivity|]. split; [reflexivity|discriminate]. Qed.
+
+Lemma history_failed_ops_invisible_refuted :
+  ~ (forall R ops, obs (run R (init false) ops) = obs (run R (init false) (succ_ops R (init false) ops))).
+Proof. intros H. destruct w5_history as [_ [_ N]]. apply N. apply H. Qed.
+
+Lemma history_counterexample_quiescent :
+  exists R ops, (forall n, quiescent (run R (init false) (firstn n ops)) = true) /\
+    obs (run R (init false) ops) <> obs (run R (init false) (succ_ops R (init false) ops)).
+Proof.
+  exists w5_R, w5_ops. destruct w5_history as [_ [Q N]]. split; [|exact N].
+  rewrite forallb_forall in Q. intros n. destruct (Nat.lt_ge_cases n 5) as [L|G].
+  - apply Q. apply in_seq. lia.
+  - assert (E : firstn n w5_ops = firstn 4 w5_ops).
+    { rewrite !firstn_all2; [reflexivity| |]; unfold w5_ops, w5_later; cbn [length]; lia. }
+    rewrite E. apply Q. apply in_seq. lia.
 Qed.
